@@ -583,6 +583,72 @@ func runC02(res *Result, d *Driver, tier string, seed uint64) {
 			res.Mismatch(Mismatch{Kind: "oracle", What: "a relative name after chdir must be resolved against the tracee's CURRENT directory (C02: kernel's resolution of the (AT_FDCWD, name) pair)", Input: fmt.Sprintf("links=%v cwd=%s script=%s", f.links, work, script), Impl: strings.Join(got, " | ") + " " + fmt.Sprint(r.Status), Model: fmt.Sprintf("R %s | R %s", w1, w2), Oracle: "violates"})
 		}
 	}
+	// threads of one process need not share a working directory or a descriptor table (unshare(CLONE_FS|CLONE_FILES),
+	// clone without those flags): a secondary thread changes ITS directory and opens a directory descriptor in ITS table,
+	// the main thread opens another directory under the same descriptor number; every name must be resolved against the
+	// calling thread's own directory / descriptor (the kernel's resolution for that thread)
+	nTh := 5
+	if tier == "thorough" {
+		nTh = 60
+	}
+	fdNum := -1
+	{
+		_, out := runPtraceProbe(RunSpec{Script: fmt.Sprintf("sys 257 fdcwd32 s:%s 0x10000 0; exit 0", work), Filter: tracingFilter(), Handler: &c02Rec{}, WorkDir: work})
+		for _, ln := range strings.Split(out, "\n") {
+			var n, e int
+			if _, err := fmt.Sscanf(ln, "sys 257 = %d %d", &n, &e); err == nil && n > 2 {
+				fdNum = n
+			}
+		}
+	}
+	for i := 0; i < nTh && fdNum > 0; i++ {
+		dirT := f.dirs[rng.Intn(len(f.dirs))] // the thread's directory
+		dirM := f.dirs[rng.Intn(len(f.dirs))] // the directory the main thread opens under the same number
+		relT, relM, relF := f.validPath(rng, dirT), f.validPath(rng, work), f.validPath(rng, dirM)
+		relFT := f.validPath(rng, dirT)
+		if strings.ContainsAny(relT+relM+relF+relFT, " ;") || strings.HasPrefix(relT, "/") || strings.HasPrefix(relM, "/") || strings.HasPrefix(relF, "/") || strings.HasPrefix(relFT, "/") || dirT == work {
+			continue
+		}
+		// t=0 thread: private fs + files, chdir dirT, open dirT (-> fdNum in its table); t=150 main: open dirM (-> fdNum in
+		// its table); t=300 thread: open(relT) and openat(fdNum, relFT); t=450 main: open(relM) and openat(fdNum, relF)
+		script := fmt.Sprintf("thread; sys 272 0x600; sys 80 s:%s; sys 257 fdcwd32 s:%s 0x10000 0; sleep 300; sys 257 fdcwd64 s:%s 0 0; sys 257 %d s:%s 0 0; endthread; "+
+			"sleep 150; sys 257 fdcwd32 s:%s 0x10000 0; sleep 300; sys 257 fdcwd32 s:%s 0 0; sys 257 %d s:%s 0 0; join; exit 0",
+			dirT, dirT, relT, fdNum, relFT, dirM, relM, fdNum, relF)
+		h := &c02Rec{}
+		r, out := runPtraceProbe(RunSpec{Script: script, Filter: tracingFilter(), Handler: h, WorkDir: work})
+		res.Case("thread-private "+script, true, "traced-thread-private")
+		got := stripPrefixCalls(h.calls, baseline)
+		dT, err1 := os.Open(dirT)
+		dM, err2 := os.Open(dirM)
+		if err1 != nil || err2 != nil {
+			continue
+		}
+		wT, ok1 := kernelResolve(int(dT.Fd()), relT)
+		wFT, ok2 := kernelResolve(int(dT.Fd()), relFT)
+		wM, ok3 := kernelResolve(int(workH.Fd()), relM)
+		wF, ok4 := kernelResolve(int(dM.Fd()), relF)
+		wdT, ok5 := kernelResolve(int(dT.Fd()), ".")
+		wdM, ok6 := kernelResolve(int(dM.Fd()), ".")
+		dT.Close()
+		dM.Close()
+		if !(ok1 && ok2 && ok3 && ok4 && ok5 && ok6) || strings.Count(out, "sys 272 = 0 0") != 1 || strings.Count(out, fmt.Sprintf("sys 257 = %d 0", fdNum)) != 2 {
+			continue // the program did not get the layout this case is about (a name does not resolve, another descriptor number)
+		}
+		// the chdir is asked as a stat/read of the directory by some policies; compare the open calls only: every expected
+		// (class, path) must have been presented, and nothing may have been presented for a path the kernel did not touch
+		exp := []string{"R " + wdT, "R " + wdM, "R " + wT, "R " + wFT, "R " + wM, "R " + wF}
+		var opens []string
+		for _, c := range got {
+			if strings.HasPrefix(c, "R ") {
+				opens = append(opens, c)
+			}
+		}
+		sort.Strings(exp)
+		sort.Strings(opens)
+		if r.Status != runner.StatusNormal || strings.Join(exp, " | ") != strings.Join(opens, " | ") {
+			res.Mismatch(Mismatch{Kind: "oracle", What: "a thread with its own working directory and descriptor table (unshare(CLONE_FS|CLONE_FILES)): every name must be resolved against the CALLING thread's directory / descriptor (C02: the kernel's resolution of the (dirfd, name) pair for that thread)", Input: fmt.Sprintf("links=%v cwd=%s script=%s", f.links, work, script), Impl: strings.Join(opens, " | ") + " " + fmt.Sprint(r.Status), Model: strings.Join(exp, " | "), Oracle: "violates"})
+		}
+	}
 	// /proc/self aliases in a traced run: the policy must see the tracee's own objects
 	for _, c := range []struct{ path, want string }{
 		{"/proc/self/cwd/../a/f", filepath.Join(f.root, "a", "f")},
